@@ -8,6 +8,23 @@ CHECKS = {
          "Samples histories (edits of every kind interleaved with evaluations, cache operations, GC, rejected edits) on generated models; at seeded checkpoints every query is answered by the live model and by a model rebuilt from the accepted edits only. Evidence about the histories visited, not a proof.",
          "Trusted: the twin is real modelx too (a defect that makes fresh evaluation itself wrong is C01's business); both-raise answers count as agreement; generator excludes regions listed as known findings / limits in DESIGN.md.", "6/C02"),
 }
+CHECKS.update({
+ "C09": ("exploration", "seeded search over histories, flag-twin (generated flags vs all-cached) + fresh-twin differential oracles",
+         "Runs each sampled history in two real worlds at once (the generated cached/uncached assignment with flag flips as steps, and every cells cached) and requires equal answers, empty uncached cells and an execution per top-level call; the flagged world is also checked by the fresh-twin.",
+         "Trusted: real modelx in both worlds; histories contain no value assignments; generator exclusions as for C02.", "6/C09"),
+ "C11": ("fault_enumeration", "seeded histories with hostile edits (rejection reason x operation) + before==after description + fresh-twin",
+         "At seeded points the editor draws from the full list of invalid operations applicable to the current state; every operation that raises is followed by a comparison of the public description (definitions and inputs) before and after, and values are re-checked against the fresh twin; accepted edits are checked for acyclic bases, a C3 order equal to CPython's and valid names.",
+         "Trusted: the description reads the public API; calculated values may be discarded by a rejected edit; which exception type is raised is not judged.", "6/C11"),
+ "C12": ("exploration", "seeded clash-prone histories, container/namespace invariants after every step",
+         "Cells, reference and space names come from one pool of 3-5 names; after every operation, accepted or not, every space must have pairwise disjoint containers, dir()/attribute access/refs view equal to the containers, and the library's own sanity checks must pass.",
+         "Trusted: public containers (cells, _own_refs, spaces, refs, dir) are what they claim to be.", "6/C12"),
+ "C13": ("exploration", "seeded deletion histories with kept handles, handle/graph invariants + fresh-twin",
+         "A handle-keeper takes handles to every kind of object at random times while the editor deletes directly and indirectly; after every step each handle must raise DeletedObjectError if its referent is gone (else raise or be the current object), and no deleted object may appear in the dependency graph or a bases list.",
+         "Trusted: RefModel mirror of accepted edits decides which referents are gone; tracegraph nodes are read as (object, key).", "6/C13"),
+ "C19": ("exploration", "seeded registry histories over 1-4 colliding models, registry/isolation invariants",
+         "Names collide on purpose (including already-suffixed ones); after every registry or in-model operation the registry must map unique current names to the same model objects, closed models must be gone, and the descriptions (and, for unlinked models, the answers) of all other models must be unchanged.",
+         "Trusted: mx.get_models() and the public description; backup-suffix numbers are not predicted.", "6/C19"),
+})
 NA = {
 }
 ALL = ["C%02d" % i for i in range(1, 21)]
